@@ -60,16 +60,24 @@ class Ctx(object):
 
 
 def petl_frame(exc):
-    """Innermost traceback frame that lies inside the petl package, as 'file.py:func'."""
-    tb = exc.__traceback__
-    found = None
+    """Innermost traceback frame that lies inside the petl package, as 'file.py:func'.
+    Follows __cause__/__context__ (a StopIteration escaping a petl generator surfaces as a
+    RuntimeError whose own traceback has no petl frame)."""
     root = os.path.join(os.path.realpath(REPO), "petl") + os.sep
-    while tb is not None:
-        fn = os.path.realpath(tb.tb_frame.f_code.co_filename)
-        if fn.startswith(root) and os.sep + "test" + os.sep not in fn:
-            found = "%s:%s" % (os.path.relpath(fn, root), tb.tb_frame.f_code.co_name)
-        tb = tb.tb_next
-    return found
+    seen = 0
+    while exc is not None and seen < 5:
+        tb = exc.__traceback__
+        found = None
+        while tb is not None:
+            fn = os.path.realpath(tb.tb_frame.f_code.co_filename)
+            if fn.startswith(root) and os.sep + "test" + os.sep not in fn:
+                found = "%s:%s" % (os.path.relpath(fn, root), tb.tb_frame.f_code.co_name)
+            tb = tb.tb_next
+        if found:
+            return found
+        exc = exc.__cause__ or exc.__context__
+        seen += 1
+    return None
 
 
 def exc_fail(prefix, exc):
